@@ -429,6 +429,8 @@ def snapshot(v, memo=None):
     elif isinstance(v, PList):
         c = PList()
         c.uid, c.name, c.proto = v.uid, v.name, v.proto
+        if getattr(v, "is_deque", False):
+            c.is_deque = True
         memo[i] = c
         if v.items is not None:
             c.items = [snapshot(x, memo) for x in v.items]
